@@ -27,6 +27,7 @@ from ..model import AnchorMissing, CannotAnalyse, walk_no_nested
 from ..poly import Rat, C, mk_atom, lem_min, lem_max, restrict, gamma_conds, fn, subst
 from ..vg import Evaluator, vkey, atoms_of, Const
 from .common import calls_to, site, key, stmt_of, enclosing, kwarg
+from ..dataflow import names_in
 
 NW = 'gnpy.core.network'
 EXPLANATION = (
@@ -242,8 +243,23 @@ def r3_saturation(ctx):
     # VOA step arguments
     va = vcalls[0].args
     names = [ast.unparse(a) for a in va[:3]]
-    ctx.check('R3.saturation', f'{site(f, vcalls[0])} VOA step', names == ['node', 'power_target', 'power_mode'], key(f, 'voa-args'),
-              f'set_amplifier_voa is called with {names}')
+    # the power target handed over is the one computed by compute_gain_power_and_tilt_target (= pref_total_db + dp, R1):
+    # the element of its result tuple at the position where the callee returns its `total power + dp` local
+    okp = False
+    cg = calls_to(f, {'compute_gain_power_and_tilt_target'})
+    cgf = repo.func(NW, 'compute_gain_power_and_tilt_target')
+    rets = [n.value for n in walk_no_nested(cgf.node) if isinstance(n, ast.Return) and isinstance(n.value, ast.Tuple)]
+    if len(cg) == 1 and len(rets) == 1:
+        pos = None
+        for k_, e in enumerate(rets[0].elts):
+            if isinstance(e, ast.Name):
+                d_ = [n for n in walk_no_nested(cgf.node) if isinstance(n, ast.Assign) and isinstance(n.targets[0], ast.Name) and n.targets[0].id == e.id]
+                if len(d_) == 1 and isinstance(d_[0].value, ast.BinOp) and isinstance(d_[0].value.op, ast.Add) and 'pref_total_db' in names_in(d_[0].value):
+                    pos = k_
+        tg = stmt_of(f, cg[0]).targets[0] if isinstance(stmt_of(f, cg[0]), ast.Assign) else None
+        okp = pos is not None and isinstance(tg, ast.Tuple) and len(tg.elts) == len(rets[0].elts) and ast.unparse(tg.elts[pos]) == names[1]
+    ctx.check('R3.saturation', f'{site(f, vcalls[0])} VOA step', names[0] == f.params[0] and okp and names[2] == 'power_mode', key(f, 'voa-args'),
+              f'set_amplifier_voa is called with {names}: expected the node, the designed power target (total design power + dp) and the power mode')
     ctx.need('R3.saturation', 20)
 
 
@@ -321,8 +337,11 @@ def r5_chaining(ctx):
                   f'after each element the walk does not hand (dp, voa) over as (prev_dp, prev_voa): updates found {sorted(ups)}')
         # updates and prev_node advance are inside the element loop, after the calls
         loop = enclosing(calls[0], ast.For)
+        # the running predecessor is what the calls receive as prev_node; it must be re-assigned in the element loop
+        pn = {ast.unparse(c.args[callee.params.index('prev_node')]) for c in calls if len(c.args) > callee.params.index('prev_node')} \
+            if 'prev_node' in callee.params else set()
         adv = [n for n in walk_no_nested(loop) if isinstance(n, ast.Assign) and isinstance(n.targets[0], ast.Name)
-               and n.targets[0].id == 'prev_node'] if loop is not None else []
+               and n.targets[0].id in pn] if loop is not None else []
         ctx.check('R5.chaining', f'{site(f)} walk advances', bool(adv), key(f, 'advance'), 'prev_node is not advanced inside the OMS walk')
         # initialisation from the ROADM / transceiver output target
         init = [n for n in walk_no_nested(f.node) if isinstance(n, ast.Assign) and isinstance(n.targets[0], ast.Subscript)
